@@ -194,8 +194,15 @@ def r4_value_payload_errors(text):
     return re.subn(r'Details\s*::\s*Get[A-Z]\w*\s*\(\s*(?:other|self)\s*\)', 'Details::Other', text)
 
 
+def r15_enumerate(text):
+    """R15: `for (i, x) in E.iter().enumerate() {` -> `for i in 0..E.len() { let x = &E[i];` (Verus has no spec for the
+    Enumerate adapter; for a Vec/slice E the two loops visit the same (index, element) pairs in the same order)."""
+    rx = re.compile(r'for\s*\(\s*(\w+)\s*,\s*(\w+)\s*\)\s*in\s+([\w\.]+?)\s*\.\s*iter\s*\(\s*\)\s*\.\s*enumerate\s*\(\s*\)\s*\{')
+    return rx.subn(lambda m: 'for %s in 0..%s.len() { let %s = &%s[%s];' % (m.group(1), m.group(3), m.group(2), m.group(3), m.group(1)), text)
+
+
 GLOBAL_REWRITES = [
-    ('R4 Details::GetX(value) -> Details::Other', r4_value_payload_errors),
+    ('R15 for (i, x) in E.iter().enumerate() -> indexed loop', r15_enumerate),
     ('R14 for _ in -> for loop_i in', r14_name_loop_var),
     ('R2 map_err(Ctor)->closure', r2_map_err_ctor),
     ('R2 map(Ctor)->closure', r2b_map_ctor),
@@ -205,6 +212,68 @@ GLOBAL_REWRITES = [
 ]
 
 # ---------------------------------------------------------------------------------------------
+
+
+EXT_TYPES = [r'serde_json\s*::\s*\w+', r'snap\s*::\s*\w+', r'uuid\s*::\s*Error', r'bzip2\s*::\s*\w+', r'liblzma\s*::\s*[\w:]+', r'zstd\s*::\s*\w+',
+             r'miniz_oxide\s*::\s*[\w:]+', r'std\s*::\s*array\s*::\s*TryFromSliceError', r'std\s*::\s*char\s*::\s*\w+', r'std\s*::\s*fmt\s*::\s*Error',
+             r'bigdecimal\s*::\s*\w+', r'num_bigint\s*::\s*\w+', r'regex_lite\s*::\s*\w+']
+SYNTHETIC_VARIANTS = ['Other', 'Compress', 'Decompress', 'HeaderBuild']
+
+
+def gen_details():
+    """R4: project `error::Details` mechanically from /repo/avro/src/error.rs: every variant is kept with its payload shape;
+    payload types are mapped (std::io::Error -> IoError model, third-party error types -> ExtErr opaque). `#[error(..)]`
+    display attributes and derives are dropped. Synthetic variants used by logged rewrites are appended."""
+    src = open(os.path.join(REPO, 'avro/src/error.rs')).read()
+    m = re.search(r'pub\s+enum\s+Details\b', src)
+    if not m:
+        raise LostAnchor('enum Details not found in avro/src/error.rs')
+    toks = rsx.sig_tokens(src[m.start():])
+    j = next(k for k, t in enumerate(toks) if t[1] == '{')
+    c = rsx.match_close(toks, j)
+    out = []
+    k = j + 1
+    names = []
+    while k < c:
+        t = toks[k]
+        if t[1] == '#' and toks[k + 1][1] == '[':
+            k = rsx.match_close(toks, k + 1) + 1
+            continue
+        if t[0] == 'id':
+            name = t[1]
+            names.append(name)
+            k += 1
+            payload = ''
+            if k < c and toks[k][1] in '({':
+                e = rsx.match_close(toks, k)
+                # drop attributes inside payload
+                parts = []
+                q = k
+                while q <= e:
+                    if toks[q][1] == '#' and toks[q + 1][1] == '[':
+                        q = rsx.match_close(toks, q + 1) + 1
+                        continue
+                    parts.append(toks[q])
+                    q += 1
+                txt = ''
+                for a, b in zip(parts, parts[1:] + [None]):
+                    txt += a[1]
+                    if b is not None and b[2] != a[3]:
+                        txt += ' '
+                payload = txt
+                k = e + 1
+            payload = re.sub(r'std\s*::\s*io\s*::\s*Error', 'IoError', payload)
+            for ext in EXT_TYPES:
+                payload = re.sub(ext, 'ExtErr', payload)
+            out.append('    %s%s,' % (name, payload))
+            if k < c and toks[k][1] == ',':
+                k += 1
+            continue
+        k += 1
+    for sv in SYNTHETIC_VARIANTS:
+        if sv not in names:
+            out.append('    %s,   // synthetic (R4/R6 projection target)' % sv)
+    return '#[allow(inconsistent_fields)]\npub enum Details {\n' + '\n'.join(out) + '\n}\n', len(names)
 
 
 def parse_template(path, seen=None):
@@ -225,6 +294,10 @@ def parse_template(path, seen=None):
                     segs.append(('text', '\n'.join(cur)))
                     cur = []
                 segs.extend(parse_template(inc, seen))
+            i += 1
+            continue
+        if re.match(r'\s*//@details\s*$', ln):
+            cur.append(gen_details()[0])
             i += 1
             continue
         m = re.match(r'\s*//@import\s+(\S+)\s+(.*)$', ln)
